@@ -380,6 +380,20 @@ def step (d : Drv) (cmd : List Sexp) : Drv × String :=
         let d := if d.f04.contains ln || d.f04.contains rn then { d with f04 := n :: d.f04 } else d
         (d.setDirect n dv).report n (if res.isSame then "same" else "new") (.ok (res.get l))
     | _, _, _, _, _, _ => (d, "bad-ref")
+  -- (joinb rN rL rR (COLS) PRED): Join(pred, min_columns=COLS, max_columns=COLS).apply(rL, rR) - the binary operation itself
+  | [atom "joinb", atom n, atom ln, atom rn, list cs, px] =>
+    match d.rel? ln, d.rel? rn, decCols d.env cs, decPred d.env px with
+    | some l, some r, some common, some p =>
+      match Rel.joinDirect d.store l r p common with
+      | .error e => (d, errLine e)
+      | .ok res =>
+        let dv : Option (Cols × List Row × Bool) :=
+          match d.direct? ln, d.direct? rn with
+          | some (lc, lr, lk), some (rc, rr, rk) => some (lc.union rc, joinRows common p lr rr, lk && rk)
+          | _, _ => none
+        let d := if d.f04.contains ln || d.f04.contains rn then { d with f04 := n :: d.f04 } else d
+        (d.setDirect n dv).report n "new" (.ok (res.get l r))
+    | _, _, _, _ => (d, "bad-ref")
   -- (predjoin PRED rL rR): the required columns a predicate declares, before and after it was used in a join
   | [atom "predjoin", px, atom ln, atom rn] =>
     match d.rel? ln, d.rel? rn, decPred d.env px with
@@ -426,11 +440,9 @@ def step (d : Drv) (cmd : List Sexp) : Drv × String :=
   | [atom "transferp", atom n, atom tn, atom en] =>
     match d.rel? tn, d.eng? en with
     | some t, some e =>
-      let t1 := (transferSimplify e t).getD t
-      if t1.engine == e then (d, errLine .engine)
-      else if e.kind != .iter then (d, "bad-op")
+      if e.kind != .iter then (d, "bad-op")
       else
-        match t.transferredTo d.store e with
+        match transferWithPayload d.store defaultFuel e t with
         | .error er => (d, errLine er)
         | .ok res =>
           let d := if d.f04.contains tn then { d with f04 := n :: d.f04 } else d
